@@ -84,7 +84,6 @@ class Fragment(AbstractApplication):
         # take the payload data to fragment it
         pyld_blk = ctr.block_num(Bundle.BLOCK_NUM_PAYLOAD)
         payload_data = pyld_blk.getfieldval('btsd')
-        pyld_blk.delfieldval('btsd')
         payload_size = len(payload_data)
         LOGGER.info('Payload data size %d', payload_size)
         # maximum size of each fragment field
@@ -93,9 +92,14 @@ class Fragment(AbstractApplication):
         # two encoded sizes for fragment, one for payload bstr head
         non_pyld_size = orig_size - payload_size + 3 * pyld_size_enc
         LOGGER.info('Non-payload size %d', non_pyld_size)
-        if non_pyld_size > mtu:
+        if non_pyld_size > mtu or payload_size == 0:
+            # cannot be fragmented, so must not be sent at all
+            ctr.route = None
+            ctr.sender = None
             raise RuntimeError('Non-payload size {} too large for route MTU {}'.format(orig_size, mtu))
+        pyld_blk.delfieldval('btsd')
 
+        fragments = []
         frag_offset = 0
         while frag_offset < len(payload_data):
             fctr = BundleContainer()
@@ -117,6 +121,10 @@ class Fragment(AbstractApplication):
             # zero-length payload has one-octet encoded bstr head
             frag_size = mtu - (non_pyld_size - 1 + pyld_size_enc)
             if frag_size <= 0:
+                # cannot be fragmented, so must not be sent at all
+                pyld_blk.setfieldval('btsd', payload_data)
+                ctr.route = None
+                ctr.sender = None
                 raise RuntimeError('Payload size {} too large for route MTU {}'.format(frag_size, mtu))
 
             LOGGER.info('Fragment non-payload size %d, offset %d, (max) size %d', non_pyld_size, frag_offset, frag_size)
@@ -124,7 +132,9 @@ class Fragment(AbstractApplication):
             frag_offset += frag_size
 
             fctr.block_num(Bundle.BLOCK_NUM_PAYLOAD).setfieldval('btsd', frag_data)
+            fragments.append(fctr)
 
+        for fctr in fragments:
             glib.idle_add(self._agent.send_bundle, fctr)
 
         # internal action, not delete
